@@ -16,6 +16,10 @@
 #include "gtree.h"
 #include <geos_c.h>
 #include <geos/triangulate/quadedge/TrianglePredicate.h>
+#include <geos/triangulate/DelaunayTriangulationBuilder.h>
+#include <geos/triangulate/VoronoiDiagramBuilder.h>
+#include <geos/geom/GeometryCollection.h>
+#include <geos/geom/MultiLineString.h>
 #include <cstdarg>
 #include <set>
 #include <fstream>
@@ -48,6 +52,27 @@ static std::string runDelaunay(double tol, const std::string& inputToks) {
     std::string t = dumpOrErr(GEOSDelaunayTriangulation_r(H, g, tol, 0));
     std::string e = dumpOrErr(GEOSDelaunayTriangulation_r(H, g, tol, 1));
     return "D " + hex(tol) + " " + inputToks + " T " + t + " E " + e;
+}
+// one builder object queried repeatedly: triangles, edges, triangles again (and the Voronoi builder: diagram, edges, diagram) must
+// answer alike each time and like the one-shot C API call — a query must not disturb the subdivision it reads
+static std::string runReuse(double tol, const std::string& inputToks, std::string& verdict) {
+    auto gf = geos::geom::GeometryFactory::getDefaultInstance();
+    auto in = buildGeom(inputToks, gf);
+    const GEOSGeometry* g = reinterpret_cast<const GEOSGeometry*>(in.get());
+    std::string ct = dumpOrErr(GEOSDelaunayTriangulation_r(H, g, tol, 0)), ce = dumpOrErr(GEOSDelaunayTriangulation_r(H, g, tol, 1));
+    std::string t1 = "ERR", e1 = "ERR", t2 = "ERR", e2 = "ERR", v1 = "ERR", v2 = "ERR", cv = dumpOrErr(GEOSVoronoiDiagram_r(H, g, nullptr, tol, 0));
+    try { geos::triangulate::DelaunayTriangulationBuilder b; b.setSites(*in); b.setTolerance(tol);
+          t1 = dumpGeom(b.getTriangles(*gf).get()); e1 = dumpGeom(b.getEdges(*gf).get()); t2 = dumpGeom(b.getTriangles(*gf).get()); e2 = dumpGeom(b.getEdges(*gf).get()); } catch (std::exception&) {}
+    try { geos::triangulate::VoronoiDiagramBuilder vb; vb.setSites(*in); vb.setTolerance(tol);
+          v1 = dumpGeom(vb.getDiagram(*gf).get()); (void) vb.getDiagramEdges(*gf); v2 = dumpGeom(vb.getDiagram(*gf).get()); } catch (std::exception&) {}
+    verdict = "consistent";
+    if (t1 != t2) verdict = "inconsistent triangles-second-call";
+    else if (e1 != e2) verdict = "inconsistent edges-second-call";
+    else if (t1 != ct) verdict = "inconsistent triangles-vs-capi";
+    else if (e1 != ce) verdict = "inconsistent edges-vs-capi";
+    else if (v1 != v2) verdict = "inconsistent voronoi-second-call";
+    else if (v1 != cv) verdict = "inconsistent voronoi-vs-capi";
+    return "RU D " + hex(tol) + " " + inputToks;
 }
 static std::string runCdt(const std::string& inputToks) {
     auto in = buildGeom(inputToks, geos::geom::GeometryFactory::getDefaultInstance());
@@ -376,6 +401,16 @@ int main(int argc, char** argv) {
             std::string c = runDelaunay(tol, multiPointToks(sc.pts, k));
             if (c.find(" ERR") != std::string::npos) out.count("impl_error");
             out.emit(c, "ok");
+        }
+    } else if (stream == "reuse") {
+        for (long i = 0; i < n; i++) {
+            SiteCase sc = genSites(r, out, true);
+            int k = placeOnGrid(r, sc.pts, out);
+            double tol = 0.0; if (sc.cls != "near-cocircular" && r.chance(30)) tol = std::ldexp(TOLS[r.below(6)], k);
+            out.count("class_" + sc.cls);
+            std::string v; std::string c = runReuse(tol, multiPointToks(sc.pts, k), v);
+            out.count(v == "consistent" ? "reuse_consistent" : "reuse_inconsistent");
+            out.emit(c, v);
         }
     } else if (stream == "cdt") {
         for (long i = 0; i < n; i++) {
